@@ -68,7 +68,7 @@ ObservedRaw(at, p, got, ok) ==
 (* ==================================== the property ================================== *)
 AllBlocksVerify     == \A i \in DOMAIN car : car[i].ok
 OnlyFromDag         == \A i \in DOMAIN car : car[i].n \in DOMAIN dag
-DupsOnlyIfRequested == ~req.dups => \A i, j \in DOMAIN car : car[i].n = car[j].n => i = j
+DupsOnlyIfRequested == ~req.dups => Cardinality(Ids(car)) = Len(car)      \* no block twice
 RootIsTerminal      == phase = "done" => carRoot = term
 Sufficient          == phase = "done" => need \subseteq Ids(car)
 RawExact            == rawResp.ok /\ rawResp.got = rawResp.want
